@@ -35,9 +35,11 @@ let () = each_line (fun l ->
     let drift = List.filter (fun v -> wincl_model v a b <> truth) [Antichains; CongrDepth; CongrBreadth] in
     (* drift: the algorithmic model of the antichain selection (worklist, antichain, memo tables) *)
     let acm = ac_incl_model a b in
+    (* drift: the algorithmic model of the congruence selections (bisimulation up to congruence, depth-first and breadth-first) *)
+    let hk = List.for_all (fun bfs -> match hkc_model bfs (nat_of_int 4000) a b with Some v -> v = truth | None -> true) [false; true] in
     let fails = List.rev !fails in
     (if fails = [] then "OK" else "FAIL " ^ String.concat "," fails)
-    ^ (if drift = [] && acm = truth then "" else " DRIFT model")
+    ^ (if drift = [] && acm = truth && hk then "" else " DRIFT model")
     ^ (if truth then " incl" else " notincl")
     ^ (if wis_empty a then " Aempty" else " Anonempty")
     ^ (if nfa_same a (nuseless a) && nfa_same b (nuseless b) then "" else " dead")
